@@ -458,6 +458,109 @@ fn str_mutants(r: &mut Rng, s: &str, alphabet: &[char]) -> Vec<String> {
     out
 }
 
+/// owned / borrowed constructors of the three name kinds agree with each other and with the validator
+fn constructor_consistency(c: &str) {
+    let fail = |what: &str| println!("{}", json!({"k":"oracle_fail","t":format!("constructors:{}", what),"s":c}));
+    let r = guarded(|| {
+        // contract names
+        let v = ContractName::is_valid_contract_name(c).is_ok();
+        let b = ContractName::new(c);
+        let o = OwnedContractName::new(c.to_string());
+        let t = OwnedContractName::try_from(c.to_string());
+        if b.is_ok() != v || o.is_ok() != v || t.is_ok() != v { fail("contract:accept"); }
+        if let (Ok(b), Ok(o), Ok(t)) = (b, o, t) {
+            if o.as_contract_name() != b || b.to_owned() != o || t != o || b.get_chain_name() != c || o.to_string() != c
+                || b.to_string() != c || b.contract_name() != &c[5..] || ContractName::new_unchecked(c) != b
+                || <&str>::from(b) != c || String::from(o.clone()) != c || OwnedContractName::new_unchecked(c.to_string()) != o {
+                fail("contract:views");
+            }
+        }
+        // receive names
+        let v = ReceiveName::is_valid_receive_name(c).is_ok();
+        let b = ReceiveName::new(c);
+        let o = OwnedReceiveName::new(c.to_string());
+        let t = OwnedReceiveName::try_from(c.to_string());
+        let f = OwnedReceiveName::from_str(c);
+        if b.is_ok() != v || o.is_ok() != v || t.is_ok() != v || f.is_ok() != v { fail("receive:accept"); }
+        if let (Ok(b), Ok(o), Ok(t), Ok(f)) = (b, o, t, f) {
+            if o.as_receive_name() != b || b.to_owned() != o || t != o || f != o || b.get_chain_name() != c || o.to_string() != c
+                || b.to_string() != c || ReceiveName::new_unchecked(c) != b || OwnedReceiveName::new_unchecked(c.to_string()) != o {
+                fail("receive:views");
+            }
+            println!("{}", json!({"k":"parts","s":cps(c),"c":cps(b.contract_name()),"e":cps(&b.entrypoint_name().to_string())}));
+        }
+        // entrypoint names
+        let v = is_valid_entrypoint_name(c).is_ok();
+        let b = EntrypointName::new(c);
+        let o = OwnedEntrypointName::new(c.to_string());
+        let t = OwnedEntrypointName::try_from(c.to_string());
+        if b.is_ok() != v || o.is_ok() != v || t.is_ok() != v { fail("entrypoint:accept"); }
+        if let (Ok(b), Ok(o), Ok(t)) = (b, o, t) {
+            if o.as_entrypoint_name() != b || b.to_owned() != o || t != o || OwnedEntrypointName::from(b) != o || o.to_string() != c
+                || b.to_string() != c || <&str>::from(b) != c || String::from(o.clone()) != c || b.size() as usize != c.len()
+                || EntrypointName::new_unchecked(c) != b || OwnedEntrypointName::new_unchecked(c.to_string()) != o {
+                fail("entrypoint:views");
+            }
+        }
+    });
+    if r.is_err() { fail("panic"); }
+}
+
+/// hexadecimal forms: printed by the implementation, parsed back, candidates
+fn hex_forms(r: &mut Rng, n: u64) {
+    fn show<T: AsRef<[u8]>>(x: Result<Result<T, ()>, String>) -> Value {
+        match x { Err(_) => json!("PANIC"), Ok(Ok(v)) => json!(hex(v.as_ref())), Ok(Err(_)) => json!(null) }
+    }
+    let parse = |t: &str, s: &str| -> Value {
+        match t {
+            "hash" => show(guarded(|| hashes::Hash::from_str(s).map(|h| h.as_ref().to_vec()).map_err(|_| ()))),
+            "pk_ed25519" => show(guarded(|| PublicKeyEd25519::from_str(s).map(|k| k.0.to_vec()).map_err(|_| ()))),
+            "pk_ecdsa" => show(guarded(|| PublicKeyEcdsaSecp256k1::from_str(s).map(|k| k.0.to_vec()).map_err(|_| ()))),
+            "sig_ed25519" => show(guarded(|| SignatureEd25519::from_str(s).map(|k| k.0.to_vec()).map_err(|_| ()))),
+            _ => show(guarded(|| SignatureEcdsaSecp256k1::from_str(s).map(|k| k.0.to_vec()).map_err(|_| ()))),
+        }
+    };
+    let kinds: [(&str, usize); 5] = [("hash", 32), ("pk_ed25519", 32), ("pk_ecdsa", 33), ("sig_ed25519", 64), ("sig_ecdsa", 64)];
+    let hch = ['0', '9', 'a', 'f', 'A', 'F', 'g', 'G', '+', '-', ' ', 'x', '\u{e9}', '\u{ff10}'];
+    for _ in 0..n {
+        for (t, len) in kinds.iter() {
+            let bytes: Vec<u8> = match r.below(4) { 0 => vec![0u8; *len], 1 => vec![0xffu8; *len], _ => r.bytes(*len) };
+            let s = match *t {
+                "hash" => { let mut a = [0u8; 32]; a.copy_from_slice(&bytes); hashes::Hash::new(a).to_string() }
+                "pk_ed25519" => { let mut a = [0u8; 32]; a.copy_from_slice(&bytes); PublicKeyEd25519(a).to_string() }
+                "pk_ecdsa" => { let mut a = [0u8; 33]; a.copy_from_slice(&bytes); PublicKeyEcdsaSecp256k1(a).to_string() }
+                "sig_ed25519" => { let mut a = [0u8; 64]; a.copy_from_slice(&bytes); SignatureEd25519(a).to_string() }
+                _ => { let mut a = [0u8; 64]; a.copy_from_slice(&bytes); SignatureEcdsaSecp256k1(a).to_string() }
+            };
+            println!("{}", json!({"k":"hp","t":t,"bytes":hex(&bytes),"s":cps(&s),"back":parse(t, &s)}));
+            let mut cands: Vec<(String, String)> = vec![
+                ("upper".into(), s.to_uppercase()),
+                ("mixed".into(), s.chars().enumerate().map(|(i, ch)| if i % 3 == 0 { ch.to_ascii_uppercase() } else { ch }).collect()),
+                ("short".into(), s[..s.len() - 1].to_string()), ("short2".into(), s[..s.len() - 2].to_string()),
+                ("long".into(), format!("{}0", s)), ("long2".into(), format!("{}00", s)), ("empty".into(), String::new()),
+                ("plus".into(), format!("+{}", &s[1..])), ("plus2".into(), format!("{}+{}", &s[..2], &s[3..])), ("plusplus".into(), format!("++{}", &s[2..])),
+                ("minus".into(), format!("-{}", &s[1..])), ("0x".into(), format!("0x{}", &s[2..])), ("space".into(), format!(" {}", &s[1..])),
+            ];
+            for m in str_mutants(r, &s, &hch) { cands.push(("mutant".into(), m)); }
+            // same byte length, but a two-byte character at an odd byte offset (outside the model: see design/C16.md)
+            cands.push(("nonascii-odd".into(), format!("0\u{e9}{}", &s[3..])));
+            cands.push(("nonascii-even".into(), format!("\u{e9}{}", &s[2..])));
+            for (cls, m) in cands {
+                println!("{}", json!({"k":"hs","t":t,"cls":cls,"s":cps(&m),"txt":m,"r":parse(t, &m)}));
+            }
+        }
+    }
+    // serde (JSON string) forms of the hash and of the key / signature types that have one
+    for _ in 0..n {
+        let h = hashes::Hash::gen(r);
+        let ok = guarded(|| serde_json::from_str::<hashes::Hash>(&serde_json::to_string(&h).unwrap()).ok() == Some(h)).unwrap_or(false);
+        let mut a = [0u8; 32]; a.copy_from_slice(&r.bytes(32));
+        let pk = PublicKeyEd25519(a);
+        let ok2 = guarded(|| serde_json::from_str::<PublicKeyEd25519>(&serde_json::to_string(&pk).unwrap()).ok() == Some(pk)).unwrap_or(false);
+        if !ok || !ok2 { println!("{}", json!({"k":"oracle_fail","t":"hex_json_roundtrip","s":h.to_string()})); }
+    }
+}
+
 const WS: [char; 8] = [' ', '\t', '\n', '\u{a0}', '\u{3000}', '\u{2003}', '\r', '\u{85}'];
 
 fn text_mode(seed: u64, n: u64) {
@@ -631,8 +734,9 @@ fn text_mode(seed: u64, n: u64) {
         emit_parse("receive_name", "grammar", &rn, rname_check(&rn));
         let l2 = *r.pick(&[0usize, 1, 4, 5, 6]); let rn2 = format!("{}.{}", body, name_chars(&mut r, l2, true));
         emit_parse("receive_name", "grammar", &rn2, rname_check(&rn2));
+        for cand in [&c, &body, &rn, &rn2] { constructor_consistency(cand); }
         if r.chance(1, 3) {
-            for m in str_mutants(&mut r, &c, &nch) { emit_parse("contract_name", "mutant", &m, cname_check(&m)); }
+            for m in str_mutants(&mut r, &c, &nch) { constructor_consistency(&m); emit_parse("contract_name", "mutant", &m, cname_check(&m)); }
             for m in str_mutants(&mut r, &rn, &nch) { emit_parse("receive_name", "mutant", &m, rname_check(&m)); emit_parse("entrypoint_name", "mutant", &m, ename_check(&m)); }
         }
         // print/parse of accepted names: Display is the name itself; construct composes names
@@ -655,7 +759,9 @@ fn text_mode(seed: u64, n: u64) {
             }
         }
     }
-    // ---------------- AccountAddress (base58check): implementation-only oracle
+    // ---------------- hexadecimal forms
+    hex_forms(&mut r, (n / 3).max(2));
+    // ---------------- AccountAddress (base58check)
     let b58 = "123456789ABCDEFGHJKLMNPQRSTUVWXYZabcdefghijkmnopqrstuvwxyz".chars().collect::<Vec<_>>();
     let mut acc_n = 0u64; let mut acc_mut = 0u64; let mut acc_mut_acc = 0u64;
     for _ in 0..n * 4 {
@@ -692,6 +798,13 @@ fn pan(v: Result<u64, String>) -> Value { match v { Err(_) => json!("PANIC"), Ok
 
 fn arith_mode(seed: u64, n: u64) {
     let mut r = Rng::new(seed);
+    // truncation (`as u64`) and u128-overflow corners of the conversions
+    for (num, den, x) in [(200u64, 1u64, (1u64 << 63) - 1), (200, 1, 1 << 63), (1, 1, 1 << 63), (1, u64::MAX, u64::MAX), (u64::MAX, 1, u64::MAX),
+                          (u64::MAX, u64::MAX, u64::MAX), (1, 1 << 57, 1 << 63), (1, 1 << 58, 1 << 63), (3, 36893488147419103, u64::MAX), (100, 1, u64::MAX), (1, 100, 12345)] {
+        let rates = ExchangeRates { euro_per_energy: ExchangeRate::new_unchecked(1, 1), micro_ccd_per_euro: ExchangeRate::new_unchecked(num, den) };
+        println!("{}", json!({"k":"a","op":"euro_cent_to_amount","num":num.to_string(),"den":den.to_string(),"x":x.to_string(),"r":pan(guarded(|| rates.convert_euro_cent_to_amount(x).micro_ccd))}));
+        println!("{}", json!({"k":"a","op":"amount_to_euro_cent","num":num.to_string(),"den":den.to_string(),"x":x.to_string(),"r":pan(guarded(|| rates.convert_amount_to_euro_cent(Amount::from_micro_ccd(x))))}));
+    }
     for i in 0..n {
         let x = r.u64_edge();
         let y = match i % 5 { 0 => u64::MAX - x, 1 => (u64::MAX - x).wrapping_add(1), 2 => x, 3 => x.wrapping_add(1), _ => r.u64_edge() };
